@@ -287,7 +287,21 @@ pub fn run_server_model(cfg: &ScenCfg, out: &mut RunOut) {
             descs.push(what);
             burst.extend(f);
         }
-        let cuts = cuts_for(burst.len());
+        let mut cuts = cuts_for(burst.len());
+        // fault: a read of the port fails after all but the last chunk of the burst (transient kinds leave the
+        // line intact, the others are a lost device); the rest of the burst is never sent. The session ends
+        // there like after a framing error: what was complete before is served, the port is re-opened after
+        // the retry delay
+        let read_fault: Option<std::io::ErrorKind> = if cfg.faults && cuts.len() >= 2 && chance(1, 8) {
+            Some([std::io::ErrorKind::Interrupted, std::io::ErrorKind::WouldBlock, std::io::ErrorKind::TimedOut, std::io::ErrorKind::BrokenPipe][choose(4) as usize])
+        } else {
+            None
+        };
+        if read_fault.is_some() {
+            cuts.pop();
+            let keep = *cuts.last().unwrap();
+            burst.truncate(keep);
+        }
         let deliver_at = kernel::now_ns();
         let mut pos = 0;
         for c in &cuts {
@@ -307,6 +321,12 @@ pub fn run_server_model(cfg: &ScenCfg, out: &mut RunOut) {
             serial::line_write(PATH, &burst[pos..*c]);
             kernel::settle();
             pos = *c;
+        }
+        if let Some(kind) = read_fault {
+            // reported by the read that follows the bytes delivered so far
+            serial::inject_port_lost(PATH, kind);
+            out.probe("rtu_read_error_mid_burst");
+            descs.push("read_error");
         }
         // replies respect the inter-character silence (t3.5 = 4.01 ms at 9600 baud): give them time
         kernel::advance(6 * MS * nframes as u64);
@@ -338,6 +358,9 @@ pub fn run_server_model(cfg: &ScenCfg, out: &mut RunOut) {
             }
         }
         pending.drain(..used);
+        if read_fault.is_some() {
+            error = true;
+        }
         let got = serial::line_take(PATH);
         if got != expected_bytes {
             let broadcast = exps.iter().any(|e| e.class == "broadcast");
@@ -369,6 +392,11 @@ pub fn run_server_model(cfg: &ScenCfg, out: &mut RunOut) {
             );
             for p in props {
                 out.violate(p, &rule, d.clone());
+            }
+            // the same deviation may also show in what the handlers were asked to do
+            let j: Vec<(u8, Call)> = rig.journal.lock().unwrap()[journal_pos..].to_vec();
+            if let Err(e) = check_journal(&j, &exps, out) {
+                out.violate("C02", "rtu_handler_journal", format!("burst {:?}: {} (journal {:?}; frames {:?})", descs, e, &j[..j.len().min(6)], classes));
             }
             break 'outer;
         }
@@ -446,7 +474,13 @@ pub fn run_server_model(cfg: &ScenCfg, out: &mut RunOut) {
             // bytes sent while the port is closed are lost on a UART: probe liveness afterwards
             kernel::advance_to(t);
             if !check_opens(&expected_opens, out, "after framing error") {
-                break 'outer;
+                // recorded (C14, C06); carry on from what the implementation did, so that what it does
+                // to the frames that follow is judged as well
+                expected_opens = serial::opens(PATH).iter().map(|o| (o.at, o.ok)).collect();
+                if !serial::is_open(PATH) {
+                    break 'outer;
+                }
+                continue;
             }
             if !serial::is_open(PATH) {
                 out.violate("C06", "port_not_reopened", "after a bad frame the port was not reopened after the retry delay".into());
